@@ -646,6 +646,8 @@ def run(chk):
     rule_K3(chk, eng, cached)
     rule_K4(chk, prog, cached)
     rule_K5(chk, prog)
+    from . import e10 as _e10
+    _e10.run_U3(chk, ("yastn.tensor", "yastn.initialize"), rule="K6")
     # NamedTuple eq/hash overrides
     for cname, mod in (("_struct", "yastn.tensor._auxiliary"), ("_slc", "yastn.tensor._auxiliary"),
                        ("_config", "yastn.tensor._auxiliary"), ("_Fusion", "yastn.tensor._merging")):
